@@ -1,1 +1,72 @@
-//! Kani harnesses compiled as a child module of rustzx-core/src/emulator/mod.rs (cfg(kani) only).
+//! Kani-only child module of rustzx-core/src/emulator/mod.rs (cfg(kani)).
+//! Shared constructors/accessors for harnesses that need an `Emulator<VHost>`;
+//! harnesses about `emulate_frames` itself live further down.
+#![allow(dead_code)]
+use super::*;
+use crate::verif_hooks::{FbCtx, VHost};
+use crate::zx::machine::ZXMachine;
+
+// ---- shared helpers (lead) --------------------------------------------------------------------
+
+pub(crate) fn mk_settings(machine: ZXMachine) -> RustzxSettings {
+    RustzxSettings {
+        machine,
+        emulation_mode: EmulationMode::FrameCount(1),
+        tape_fastload_enabled: true,
+        kempston_enabled: false,
+        mouse_enabled: false,
+        #[cfg(all(feature = "sound", feature = "ay"))]
+        ay_mode: crate::zx::sound::ay::ZXAYMode::ABC,
+        #[cfg(all(feature = "sound", feature = "ay"))]
+        ay_enabled: true,
+        #[cfg(feature = "sound")]
+        beeper_enabled: true,
+        #[cfg(feature = "sound")]
+        sound_enabled: true,
+        #[cfg(feature = "sound")]
+        sound_volume: 100,
+        #[cfg(feature = "sound")]
+        sound_sample_rate: 8000,
+        #[cfg(feature = "embedded-roms")]
+        load_default_rom: false,
+        #[cfg(feature = "autoload")]
+        autoload_enabled: false,
+    }
+}
+
+pub(crate) fn mk_emulator_with(settings: RustzxSettings, ctx: FbCtx) -> Emulator<VHost> {
+    match Emulator::<VHost>::new(settings, ctx) {
+        Ok(e) => e,
+        Err(_) => unreachable!(),
+    }
+}
+
+pub(crate) fn mk_emulator(machine: ZXMachine, ctx: FbCtx) -> Emulator<VHost> {
+    mk_emulator_with(mk_settings(machine), ctx)
+}
+
+pub(crate) fn any_machine() -> ZXMachine {
+    if kani::any() {
+        ZXMachine::Sinclair48K
+    } else {
+        ZXMachine::Sinclair128K
+    }
+}
+
+pub(crate) fn cpu<'a>(e: &'a mut Emulator<VHost>) -> &'a mut Z80 {
+    &mut e.cpu
+}
+
+pub(crate) fn controller<'a>(e: &'a mut Emulator<VHost>) -> &'a mut ZXController<VHost> {
+    &mut e.controller
+}
+
+pub(crate) fn parts<'a>(e: &'a mut Emulator<VHost>) -> (&'a mut Z80, &'a mut ZXController<VHost>) {
+    (&mut e.cpu, &mut e.controller)
+}
+
+pub(crate) fn set_fast_load_flag(e: &mut Emulator<VHost>, v: bool) {
+    e.fast_load = v;
+}
+
+// ---- end shared helpers -----------------------------------------------------------------------
